@@ -1215,9 +1215,14 @@ def run_env(case: dict) -> Tuple[List[str], dict]:
     states: List[dict] = []
     orig_update = G.PrimaiteGame.update_agents
 
+    in_update = [False]
+
     def tapped(self, state):
         states.append(state)
-        return orig_update(self, state)
+        in_update[0] = True
+        r = orig_update(self, state)
+        in_update[0] = False
+        return r
     G.PrimaiteGame.update_agents = tapped
     out: List[str] = []
     steps = []
@@ -1247,14 +1252,23 @@ def run_env(case: dict) -> Tuple[List[str], dict]:
                 env.action_space.seed(case["seed"])
             for k in range(case["n_steps"]):
                 n_before = len(states)
-                if env is not None:
-                    _obs, rew, _term, _trunc, _info = env.step(env.action_space.sample())
-                    if Fraction(rew) != Fraction(env.agent.reward_function.current_reward):
-                        check._bad("env.step reward: env.step returned a reward different from the agent's current_reward")
-                else:
-                    for ag in game.rl_agents.values():
-                        ag.store_action(arng.below(len(ag.action_manager.action_map)))
-                    game.step()
+                try:
+                    if env is not None:
+                        _obs, rew, _term, _trunc, _info = env.step(env.action_space.sample())
+                        if Fraction(rew) != Fraction(env.agent.reward_function.current_reward):
+                            check._bad("env.step reward: env.step returned a reward different from the agent's current_reward")
+                    else:
+                        for ag in game.rl_agents.values():
+                            ag.store_action(arng.below(len(ag.action_manager.action_map)))
+                        game.step()
+                except Exception:
+                    if in_update[0]:
+                        raise  # inside update_agents: the reward layer itself (never seen on a real state dictionary)
+                    # an exception of the simulator / an agent, outside the reward layer (C01's subject): the run ends here and
+                    # what was observed so far is compared; the traceback goes into the evidence notes
+                    import traceback
+                    capture["sim_exception"] = f"{case.get('source')} seed {case['seed']} step {k + 1}: " + traceback.format_exc()[-1500:]
+                    break
                 assert len(states) == n_before + 1, "update_agents must run exactly once per step"
                 items = {}
                 for ref, ag in game.agents.items():
@@ -1274,7 +1288,13 @@ def run_env(case: dict) -> Tuple[List[str], dict]:
                     check.episode_end(game)
                     ep = env.episode_counter
                     before = env.agent.reward_function.total_reward
-                    env.reset()
+                    try:
+                        env.reset()
+                    except Exception:
+                        import traceback
+                        capture["sim_exception"] = f"{case.get('source')} seed {case['seed']} reset after step {k + 1}: " + traceback.format_exc()[-1500:]
+                        steps.append(stp)
+                        break
                     if env.total_reward_per_episode.get(ep) != before:
                         check._bad(f"episode record: total_reward_per_episode[{ep}] = {env.total_reward_per_episode.get(ep)!r} "
                                    f"but the agent's total at the end of that episode was {before!r}")
